@@ -297,6 +297,24 @@ def main():
         m = need(re.search(pat, s), f"{rel}: {nm}")
         c(nm, num(m.group(1)))
 
+    # ---- driver/mod.rs: is the hand-off slot reserved before the preamble is read?
+    # (structure of `accept_uni` / `accept_bi`: a `reserve_owned()`/`reserve()` that precedes
+    # `tokio::spawn` means the spawned preamble task holds the slot while it waits for bytes)
+    for nm, fn, nxt in (("HANDOFF_RESERVE_FIRST_UNI", "accept_uni", "accept_bi"),
+                        ("HANDOFF_RESERVE_FIRST_BI", "accept_bi", "accept_datagram")):
+        m = need(re.search(r"async fn " + fn + r"\(\s*quic_connection: &quinn::Connection,(.*?)async fn " + nxt + r"\(", s, re.S), f"{rel}: fn {fn}")
+        body = m.group(1)
+        sp = body.find("tokio::spawn")
+        if sp < 0:
+            raise Missing(f"{rel}: {fn}: tokio::spawn of the preamble task")
+        before, after = body[:sp], body[sp:]
+        first = bool(re.search(r"\.reserve(_owned)?\(\)", before))
+        if not first and not re.search(r"\.send\(.*?\)\s*\.await", after, re.S):
+            raise Missing(f"{rel}: {fn}: neither a reservation before the task nor an awaited send inside it")
+        ex[nm] = first
+        L.append(f"/-- `{fn}`: a queue slot is reserved before the preamble task is spawned -/")
+        L.append(f"abbrev {nm} : Bool := {'true' if first else 'false'}")
+
     # ---- driver/streams/settings.rs advertised settings
     rel = "wtransport/src/driver/streams/settings.rs"
     s = rd(repo, rel)
